@@ -184,11 +184,23 @@ def io_engine(run, tier, seed):
     lineengine.run_engine("io", [str(seed)] + ([] if tier == "thorough" else ["quick"]), describe, run, timeout=3000)
 
 
+def span_engine(run, tier, seed):
+    """Function-level correspondence of the span splicing primitives (replaceRange, splitSpan, truncate, resize,
+    deleteChars, rawWriteSpan, StyledLine, ...) with Model/Span.v: raw span structure compared line by line."""
+    import lineengine
+
+    def describe(case, impl, model):
+        f = case.split()
+        return ("span primitive case [%s]: model [%s] implementation [%s]" % (case[:160], model.split(" -1 ", 1)[-1][:160], impl.split(" -1 ", 1)[-1][:160]),
+                (f[0] if f else "", f[1] if len(f) > 1 else ""))
+    lineengine.run_engine("span", [str(seed), "250" if tier == "thorough" else "25"], describe, run, timeout=3000)
+
+
 PROPS = {
     "C01": {"tags": [2], "ppref": ("C01",), "batches": [
         B("hostile", 500, 20000, tags=[]), B("mixed", 300, 8000, tags=[]), B("hostile", 150, 4000, modes="1", tags=[])]},
     "C02": {"tags": SCREEN, "ppref": ("C02",), "batches": [
-        B("mixed", 500, 12000), B("hostile", 300, 8000, tags=[2]), B("stepall", 200, 4000, step=True)]},
+        B("mixed", 500, 12000), B("hostile", 300, 8000, tags=[2]), B("stepall", 200, 4000, step=True)], "extra": [span_engine]},
     "C03": {"tags": SCREEN, "ppref": ("C03",), "batches": [
         B("c03", 600, 15000, step=True, kinds_wanted=[1])]},
     "C04": {"tags": [2, 3, 7], "ppref": ("C04",), "batches": [
